@@ -130,6 +130,46 @@ def simple_crosscheck(c, eng, paths, inp, samples_per_path=3):
     return bad
 
 
+def init_crosscheck(c, eng, paths, inp, build, extra=(), vary=(), samples_per_path=4):
+    """Engine-vs-CPython cross-check for constructors: for models of each terminal path (under `extra` constraints that pin the symbolic
+    platform to the host), `build(model)` constructs the REAL object; every bool / int / flag-word field pyvc computed is compared with the
+    attribute of the real object."""
+    bad = []
+    for st, oc in paths:
+        if oc.kind != 'return':
+            continue
+        s = z3.Solver()
+        s.set('timeout', 5000)
+        s.add(*st.pc)
+        s.add(*extra)
+        for _ in range(samples_per_path):
+            if s.check() != z3.sat:
+                break
+            m = s.model()
+            try:
+                real = build(m)
+            except Exception as e:
+                bad.append(f'real constructor raised {type(e).__name__}: {e} on a path pyvc lets return')
+                break
+            for name, v in st.fields.items():
+                if not hasattr(real, name):
+                    continue
+                got = getattr(real, name)
+                if v.kind == 'bool' and isinstance(got, bool):
+                    want = z3.is_true(m.eval(v.t, model_completion=True))
+                elif v.kind in ('int', 'bv') and isinstance(got, int) and not isinstance(got, bool):
+                    want = m.eval(v.t, model_completion=True).as_long()
+                else:
+                    continue
+                if got != want:
+                    bad.append(f'field {name}: CPython {got!r}, pyvc {want!r} under model {str(m)[:200]}')
+            block = [t != m.eval(t, model_completion=True) for t in vary]
+            if not block:
+                break
+            s.add(z3.Or(*block))
+    return bad[:5]
+
+
 def _model_str(model, limit=1500):
     try:
         return str(model)[:limit]
